@@ -175,8 +175,8 @@ class VmTuple(TlbScheme):
         if len(values) == 0:
             return Cell.empty()
         builder = Builder()
-        value = values.pop()
-        builder.store_cell(VmTupleRef.serialize(values))
+        head, value = VmTuple(values.list[:-1]), values.list[-1]  # the caller's tuple is left as it is
+        builder.store_cell(VmTupleRef.serialize(head))
         builder.store_ref(VmStackValue.serialize(value))
         return builder.end_cell()
 
